@@ -105,8 +105,9 @@ def check(rep, F, tier, replay=None):
         fn0 = F.fns[lst[0].fid]
         if fn0["file"] not in ("src/fees.rs", "src/rational.rs"):
             continue
-        e = tab.get(g)
-        if e is None or len(lst) > e["count"] or e["disposition"] == "finding":
+        from e1_panicpath import allow_lookup as _al
+        e, n_s = _al(tab, by, g)
+        if e is None or n_s > e["count"] or e["disposition"] == "finding":
             rep.violation("E3-fees", "%s|%s|%s" % g, "unaudited arithmetic construct in the fee code: %s %s in %s at %s" % (g[1], g[2], g[0], facts.loc_str(lst[0].loc, fn0)), {})
     # as_u64 None -> Err: the conversions have an Err exit and no unwrap-like consumer of as_u64
     rep.rule("OVF", "a result that does not fit in 64 bits becomes Err: as_u64's Option is matched, never unwrapped / defaulted")
